@@ -130,6 +130,24 @@ class Summary:
             pairs = [ast.Compare(left=a, ops=[op], comparators=[b]) for a, op, b in zip(terms, e.ops, terms[1:])]
             yield from self.branches(ast.BoolOp(op=ast.And(), values=pairs), facts)
             return
+        if isinstance(e, ast.Compare) and len(e.ops) == 1:
+            # a conditional operand is decided first:  (a if c else b) is None
+            for side in ("left", "right"):
+                operand = e.left if side == "left" else e.comparators[0]
+                if isinstance(operand, ast.IfExp):
+                    for f, v in self.branches(operand.test, facts):
+                        chosen = operand.body if v else operand.orelse
+                        new = ast.Compare(left=chosen if side == "left" else e.left, ops=e.ops,
+                                          comparators=[e.comparators[0] if side == "left" else chosen])
+                        yield from self.branches(new, f)
+                    return
+            a, b = e.left, e.comparators[0]
+            if isinstance(a, ast.Constant) and isinstance(b, ast.Constant) and \
+                    isinstance(e.ops[0], (ast.Is, ast.IsNot, ast.Eq, ast.NotEq)) and \
+                    (a.value is None or b.value is None or type(a.value) is type(b.value)):
+                same = a.value == b.value and type(a.value) is type(b.value)
+                yield facts, same == isinstance(e.ops[0], (ast.Is, ast.Eq))
+                return
         if isinstance(e, ast.Constant):
             yield facts, bool(e.value)
             return
@@ -141,10 +159,36 @@ class Summary:
         if k in facts:
             yield facts, facts[k] != flip
             return
+        implied = self._implied(k, facts)
+        if implied is not None:
+            f2 = dict(facts)
+            f2[k] = implied
+            yield f2, implied != flip
+            return
         for v in (True, False):
             f = dict(facts)
             f[k] = v
             yield f, v != flip
+
+    @staticmethod
+    def _implied(k: Key, facts: Facts) -> Optional[bool]:
+        """the few implications between atoms the rules rely on: an instance of a class is not
+        None; None is an instance of nothing"""
+        if k[0] == "Is" and "None" in k[1:]:
+            other = [x for x in k[1:] if x != "None"]
+            if other:
+                head = "isinstance(%s," % other[0]
+                for fk, fv in facts.items():
+                    if fk[0] == "truthy" and fk[1].replace(" ", "").startswith(head.replace(" ", "")) and fv:
+                        return False
+        if k[0] == "truthy" and k[1].startswith("isinstance("):
+            inner = k[1][len("isinstance("):]
+            for fk, fv in facts.items():
+                if fk[0] == "Is" and "None" in fk[1:] and fv:
+                    other = [x for x in fk[1:] if x != "None"]
+                    if other and inner.replace(" ", "").startswith(other[0].replace(" ", "") + ","):
+                        return False
+        return None
 
     # -- statements --------------------------------------------------------------
     def _sub(self, e: Optional[ast.AST], env: Dict[str, ast.AST]) -> Optional[ast.AST]:
